@@ -898,7 +898,7 @@ theorem split_up : splitNameIndex ['.', '.'] = .ok (['.', '.'], .none) := by dec
 theorem intStr_nat (j : Nat) : intStr (j : Int) = natStr j := rfl
 
 /-- the `'..'` step: the `found` text, minus its last piece, is resolved from the root to the element
-`qq[j]`; the walk continues there -/
+`qq[j]`; the walk continues there, with the index put back on the found text (fix C06-b) -/
 theorem find_up_step (fuel : Nat) (root : Val) (entry rl : Bool) (p : Pos) (pv : Val) (found : Str) (rest up : List Str)
     (qq : Pos) (lc : Cls) (rs : List Val) (j : Nat) (rec : Val) (fnd' : Str)
     (hpar : getAt root p = some pv)
@@ -907,13 +907,13 @@ theorem find_up_step (fuel : Nat) (root : Val) (entry rl : Bool) (p : Pos) (pv :
       = .ok (root, { parent := .at qq, nameIdx := some (bracket (intStr (j : Int))), value := rec, found := fnd', notFound := Option.none }))
     (hqq : getAt root qq = some (.list lc rs)) (hj : j < rs.length) (hrest : rest ≠ []) :
     findD (fuel + 1) root [] false entry (['.', '.'] :: rest) (.at p) rl found
-      = findD fuel root [] false false rest (.at (qq ++ [Seg.idx j])) rl fnd' := by
+      = findD fuel root [] false false rest (.at (qq ++ [Seg.idx j])) rl (fnd' ++ bracket (intStr (j : Int))) := by
   have hr : rest.length ≥ 1 := by cases rest with | nil => exact absurd rfl hrest | cons _ _ => simp
   have hbne : (bracket (intStr (j : Int))).isEmpty = false := by simp [bracket]
   rw [findD]
   simp only [Bool.false_and, Bool.false_eq_true, if_false, valOf_at, hpar, split_up, List.isEmpty_cons,
     Bool.not_false, Idx.truthy, if_true, hup, hinner, hqq, hbne, split_bracket_intStr, List.isEmpty_nil,
-    Bool.not_true, n0eval_intStr, pyGetIdx, normIdx_nat hj, childRef, hr, Bool.or_true, decide_true]
+    Bool.not_true, n0eval_intStr, pyGetIdx, normIdx_nat hj, childRef, hr, Bool.or_true, decide_true, upFound]
 
 /-- the comparison made by the `text()` branch for the normalised operator `op` -/
 def condTest (op : Str) (v : CondVal) (kv : Val) : Bool :=
@@ -1138,24 +1138,12 @@ theorem cond_loop (cls : Cls) (kvs : List (Str × Val)) (name k f op : Str) (v :
       · intro x hx; apply h2; simpa [hrj] using hx
     | _ => rw [hrj] at hd; simp [isDict] at hd
 
-/-- a condition step applied to a non-empty list: `[*]` is supplied -/
+/-- a condition step applied to a list (an empty one too — fix C06-e): `[*]` is supplied -/
 theorem find_cond_on_list (fuel : Nat) (root : Val) (entry rl : Bool) (q : Pos) (found tok k op : Str) (v : CondVal)
-    (rest : List Str) (lc : Cls) (xs : List Val) (hq : getAt root q = some (.list lc xs)) (hne : xs ≠ [])
+    (rest : List Str) (lc : Cls) (xs : List Val) (hq : getAt root q = some (.list lc xs))
     (hs : splitNameIndex tok = .ok ([], .cond k op v)) (hk : k ≠ sTextFn) :
     findD (fuel + 1) root [] false entry (tok :: rest) (.at q) rl found
       = findD fuel root [] false false (bracket ['*'] :: tok :: rest) (.at q) rl found := by
-  cases xs with
-  | nil => exact absurd rfl hne
-  | cons x xs =>
-    rw [findD]
-    simp only [Bool.false_and, Bool.false_eq_true, if_false, valOf_at, hq, hs, List.isEmpty_nil,
-      Idx.truthy, Bool.not_true, Bool.and_false, hk]
-
-/-- a condition step applied to an empty list: `IndexError` -/
-theorem find_cond_on_empty (fuel : Nat) (root : Val) (entry rl : Bool) (q : Pos) (found tok k op : Str) (v : CondVal)
-    (rest : List Str) (lc : Cls) (hq : getAt root q = some (.list lc []))
-    (hs : splitNameIndex tok = .ok ([], .cond k op v)) (hk : k ≠ sTextFn) :
-    findD (fuel + 1) root [] false entry (tok :: rest) (.at q) rl found = .error .IndexError := by
   rw [findD]
   simp only [Bool.false_and, Bool.false_eq_true, if_false, valOf_at, hq, hs, List.isEmpty_nil,
     Idx.truthy, Bool.not_true, Bool.and_false, hk]
@@ -1166,10 +1154,10 @@ structure FieldKey (k : Str) : Prop where
   cond : CondKey k
   notText : k ≠ sTextFn
 
-/-- `name[k op v]/f` from the root, non-empty record list -/
+/-- `name[k op v]/f` from the root -/
 theorem cond_find (cls : Cls) (kvs : List (Str × Val)) (name k f opx op vq v : Str) (lc : Cls) (rs : List Val) (rl : Bool)
     (hname : PlainKey name) (hk : FieldKey k) (hf : PlainKey f) (hop : OpSpell opx op) (hlit : LitSpell vq v)
-    (hv : PlainLit v) (hl : lookup name kvs = some (.list lc rs)) (hrs : ∀ r ∈ rs, isDict r = true) (hne : rs ≠ [])
+    (hv : PlainLit v) (hl : lookup name kvs = some (.list lc rs)) (hrs : ∀ r ∈ rs, isDict r = true)
     (hg : ∀ c kvs' kv, Val.dict c kvs' ∈ rs → lookup k kvs' = some kv → textGuard kv (.str v) = false)
     (fuel : Nat) (hfuel : fuel ≥ rs.length + 10) :
     ∃ r, findD fuel (.dict cls kvs) [] false true [name ++ bracket (k ++ opx ++ vq), f] (.at []) rl slash
@@ -1188,29 +1176,12 @@ theorem cond_find (cls : Cls) (kvs : List (Str × Val)) (name k f opx op vq v : 
   have hqq : getAt (.dict cls kvs) ([] ++ [Seg.key name]) = some (.list lc rs) := getAt_root_key cls kvs name _ hl
   rw [find_keycond_step (g + 2) _ true rl [] slash _ name k op (.str v) [f] cls kvs _ rfl hs0 hname.ne hname.notUp
     hname.keyTok.notStar hl]
-  rw [find_cond_on_list (g + 1) _ false rl _ _ _ k op (.str v) [f] lc rs hqq hne hs1 hk.notText]
+  rw [find_cond_on_list (g + 1) _ false rl _ _ _ k op (.str v) [f] lc rs hqq hs1 hk.notText]
   rw [find_star_step g _ false rl _ _ _ _ lc rs hqq split_star]
   apply cond_loop cls kvs name k f op (.str v) rs rl _ _ (by simp) hrs _ g (by omega)
   intro j c kvs' hj fu hfu
   exact cond_elem cls kvs name k f op _ _ (.str v) lc rs j rl c kvs' hname hk.plain hk.notText hf.keyTok hl hj hs1 rfl hs2
     hopc (fun kv hkv => hg c kvs' kv (List.mem_of_getElem? hj) hkv) fu hfu
-
-/-- `name[k op v]/f` on an empty record list: the engine raises `IndexError` (a miss for `get`) -/
-theorem cond_find_empty (cls : Cls) (kvs : List (Str × Val)) (name k f opx op vq v : Str) (lc : Cls) (rl : Bool)
-    (hname : PlainKey name) (hk : FieldKey k) (hop : OpSpell opx op) (hlit : LitSpell vq v)
-    (hv : PlainLit v) (hl : lookup name kvs = some (.list lc [])) (fuel : Nat) (hfuel : fuel ≥ 2) :
-    findD fuel (.dict cls kvs) [] false true [name ++ bracket (k ++ opx ++ vq), f] (.at []) rl slash
-      = .error .IndexError := by
-  obtain ⟨g, rfl⟩ : ∃ g, fuel = g + 2 := ⟨fuel - 2, by omega⟩
-  have hopc := opSpell_canon hop
-  have hs0 := split_cond name k opx op vq v (Or.inr hname) hk.cond hop hlit hv
-  have hs1 : splitNameIndex (bracket (k ++ op ++ ['\''] ++ condValStr (.str v) ++ ['\''])) = .ok ([], .cond k op (.str v)) := by
-    have := split_cond [] k op op _ v (Or.inl rfl) hk.cond hopc (.sq v) hv
-    simpa [condValStr, List.append_assoc] using this
-  have hqq : getAt (.dict cls kvs) ([] ++ [Seg.key name]) = some (.list lc []) := getAt_root_key cls kvs name _ hl
-  rw [find_keycond_step (g + 1) _ true rl [] slash _ name k op (.str v) [f] cls kvs _ rfl hs0 hname.ne hname.notUp
-    hname.keyTok.notStar hl]
-  exact find_cond_on_empty g _ false rl _ _ _ k op (.str v) [f] lc hqq hs1 hk.notText
 
 /-- `name/k[text() op v]/../f` from the root -/
 theorem textform_find (cls : Cls) (kvs : List (Str × Val)) (name k f opx op vq v : Str) (lc : Cls) (rs : List Val) (rl : Bool)
@@ -1297,13 +1268,8 @@ theorem cond_api (cls : Cls) (kvs : List (Str × Val)) (name k f opx op vq v : S
   have hpc : hasPathChar xp = true := hasPathChar_slash _ _
   have htok : tokenize xp = [name ++ bracket (k ++ opx ++ vq), f] :=
     tokenize_keybr_field name _ f hname hf (fun c hc => (hch c hc).1) (fun c hc => (hch c hc).2)
-  by_cases hne : rs = []
-  · subst hne
-    have := select_api_err cls kvs xp _ d fuel hq hpc htok
-      (fun rl => cond_find_empty cls kvs name k f opx op vq v lc rl hname hk hop hlit hv hl fuel (by omega))
-    simpa [vals, somes] using this
-  · exact select_api cls kvs xp _ vals d fuel hq hpc htok
-      (fun rl => cond_find cls kvs name k f opx op vq v lc rs rl hname hk hf hop hlit hv hl hrs hne hg fuel hfuel)
+  exact select_api cls kvs xp _ vals d fuel hq hpc htok
+    (fun rl => cond_find cls kvs name k f opx op vq v lc rs rl hname hk hf hop hlit hv hl hrs hg fuel hfuel)
 
 theorem tokenize_textform (name k e f : Str) (hname : PlainKey name) (hk : PlainKey k) (hf : PlainKey f)
     (he : ∀ c ∈ e, c ≠ ']' ∧ c ≠ '/') :
